@@ -6,6 +6,7 @@ HERE="$(cd "$(dirname "$0")" && pwd)"
 "$HERE/scratch.sh" setup "$S" >/dev/null 2>&1; "$HERE/scratch.sh" sync "$S"
 for d in /verif/seeded/*/; do
   id="$(basename "$d")"; prop="$(python3 -c "import json;m=json.load(open('$d/meta.json'));print(m.get('check_with') or m['breaks_property'])")"
+  if python3 -c "import json,sys;sys.exit(0 if json.load(open('$d/meta.json')).get('not_pursued') else 1)"; then echo "$id (breaks $prop): not pursued (see meta.json)"; continue; fi
   "$HERE/scratch.sh" reset "$S"
   # patches were written against the /repo HEAD of their time (meta.json base_commit); later fix commits
   # may touch neighbouring lines: fall back to a 3-way apply
